@@ -94,7 +94,7 @@ StepBlock(e) ==
         ELSE ""
       \* C01 / C02 on the delivery path: a relayed block that entered the chain state spends only what is there and authorised, and conserves value
       c12 ==
-        IF Focus \cap {"C01", "C02"} = {} \/ ~relay \/ ~accepted \/ b.parent \notin pre \/ b.height <= Horizon THEN ""
+        IF Focus \cap {"C01", "C02", "C16"} = {} \/ ~relay \/ ~accepted \/ b.parent \notin pre \/ b.height <= Horizon THEN ""
         ELSE LET pu == utxo[b.parent] IN
              IF "C01" \in Focus /\ ~P_SpendsExist(b, pu) THEN "C01:spend_of_missing_or_spent_output"
              ELSE IF "C01" \in Focus /\ ~P_NoDoubleSpend(b) THEN "C01:output_spent_twice_in_block"
@@ -103,6 +103,7 @@ StepBlock(e) ==
              ELSE IF "C02" \in Focus /\ ~P_OneReward(b) THEN "C02:reward_transaction_malformed"
              ELSE IF "C02" \in Focus /\ ~P_TxValues(b, pu) THEN "C02:transaction_values_out_of_range_or_overspent"
              ELSE IF "C02" \in Focus /\ ~P_Reward(b, pu) THEN "C02:reward_exceeds_subsidy_plus_fees"
+             ELSE IF "C16" \in Focus /\ ~P_Reward(b, pu) THEN "C16:block_claiming_more_than_the_subsidy_of_its_height_plus_fees_entered_the_chain_state"
              ELSE ""
   IN \* the spec state follows the *implementation's* outcome where that outcome is explainable
      /\ UNCHANGED << miner, tid >>
